@@ -74,6 +74,12 @@ def mk_sampler_obj(I, cls="SMCSampler", extra=None):
     I.reg.handlers["FlowStub.sample_and_log_prob"] = flow_sample_and_log_prob
     I.reg.handlers["TransformStub.inverse"] = t_inverse
     I.reg.handlers["TransformStub.fit"] = t_fit
+
+    def t_forward(I2, a, k, n):
+        x = a[1]
+        I2.path.event("precond.forward", x)
+        return Tup([rowwise("TFWDX_unfitted", uf("precond_forward_row_without_refit", Row, Row), x, "row"), rowwise("TFWDJ", uf("precond_forward_logJ_row", Row, RS), x, "real")])
+    I.reg.handlers["TransformStub.forward"] = t_forward
     f = {"xp": Sym(z3.Const("sampler_xp", Misc), "ns"), "dtype": Sym(z3.Const("sampler_dtype", Misc), "dtype"),
          "parameters": Sym(z3.Const("sampler_parameters", Misc), "params"), "dims": IV(z3.Int("dims")),
          "log_prior": Fn(user_prior, "user_log_prior"), "_log_likelihood": Fn(user_like, "user_log_likelihood"),
